@@ -2,6 +2,7 @@ package main
 
 import (
 	"bytes"
+	"io"
 	"encoding/json"
 	"fmt"
 	"os"
@@ -22,6 +23,7 @@ import (
 	"github.com/practable/relay/internal/deny"
 	"github.com/practable/relay/internal/ttlcode"
 	"github.com/practable/relay/verifharness/lib"
+	log "github.com/sirupsen/logrus"
 )
 
 // ---------------------------------------------------------------------------------------------
@@ -286,7 +288,7 @@ func runPair(store, a, b, mode string, d time.Duration, seed int64) string {
 	return runPairs([]pairSpec{{store, a, b}}, mode, int(d/time.Millisecond), seed, 4)
 }
 
-var frameRe = regexp.MustCompile(`(internal/(?:ttlcode|deny|chanmap|crossbar)/[\w.-]+\.go):(\d+)`)
+var frameRe = regexp.MustCompile(`(internal/(?:ttlcode|deny|chanmap|crossbar|access|relay)/[\w.-]+\.go):(\d+)`)
 
 // raceOnGuarded: does the output contain a race report (or the runtime's concurrent-map fault) whose accesses
 // are at a guarded-field access of the translated packages? returns the report text.
@@ -639,6 +641,17 @@ func hangProbe(r *lib.Relay, admin string) {
 		}
 	}
 	fmt.Fprintf(os.Stderr, "@@HANG the relay no longer answers POST /session (status %d) or POST /bids/deny (status %d) within 5 s, twice; %d goroutine(s) of the store packages are parked on a mutex\n", sts[0], sts[1], len(keep))
+	// goroutines that sit in two store packages at once (holding one lock, waiting for the other) first
+	pkgs := func(g string) int {
+		m := map[string]bool{}
+		for _, x := range ourPkgRe.FindAllStringSubmatch(g, -1) {
+			if x[1] != "access" {
+				m[x[1]] = true
+			}
+		}
+		return len(m)
+	}
+	sort.SliceStable(keep, func(i, j int) bool { return pkgs(keep[i]) > pkgs(keep[j]) })
 	seen := map[string]bool{}
 	shown := 0
 	for _, g := range keep {
@@ -674,6 +687,9 @@ func childRelay(a []string) {
 		mode = a[2]
 	}
 	r := lib.StartRelay(lib.RelayOpts{PruneEvery: 150 * time.Millisecond, StatsEvery: 300 * time.Millisecond, BufferSize: 8})
+	// the relay logs maps and structs at Debug/Trace level: let the formatter really walk them (output discarded)
+	log.SetOutput(io.Discard)
+	log.SetLevel(log.TraceLevel)
 	admin := r.AdminBearer("relay:admin")
 	stats := r.AdminBearer("relay:stats")
 	g := lib.NewRng(seed)
@@ -727,7 +743,9 @@ func childRelay(a []string) {
 				switch gg.Intn(6) {
 				case 0:
 					r.Deny(bid, now+2, admin)
-					atomic.AddInt64(&adm, 1)
+					// and a booking nobody touches again, so that the pruner has something to remove
+					r.Deny(fmt.Sprintf("once-%d-%d", c, it), now+1, admin)
+					atomic.AddInt64(&adm, 2)
 				case 1:
 					r.Allow(bid, now+20, admin)
 					atomic.AddInt64(&adm, 1)
